@@ -79,7 +79,7 @@ CLAIMED = {
               "training set, train/val are disjoint and covering and the reported counts equal the numbers yielded; "
               "subdivide_batches/generate_batches for all n <= 40, max_batch <= 45 with unrealised symbolic ints; for symbolic predictions, targets, "
               "detector mask and mean intensity the mean of the per-batch losses equals the full-batch loss for every divisor of the "
-              "pattern count and all four l1/l2 x amplitude/intensity losses; the real control flow of Ptychography.reconstruct / reset_recon / "
+              "pattern count and all four l1/l2 x amplitude/intensity losses and the Poisson loss (log uninterpreted, constant mean intensity); the real control flow of Ptychography.reconstruct / reset_recon / "
               "RNGMixin / SimpleBatcher (numerical work of a step cut out) gives, after 0-2 earlier iterations, with reset=True the same loss "
               "history and batch sequence as a fresh object from the same seed (n <= 5, seeds 0..2, three validation ratios, both split modes)"),
         note=("trusts CrossHair/z3; the generator is a stub constrained by Generator.permutation's contract, in the determinism jobs a "
@@ -206,7 +206,9 @@ CLAIMED = {
         technique="term-valued symbolic execution of the real interval/stretch/CustomNormalization NumPy code; transcendental functions as uninterpreted functions with instantiated monotonicity/inverse laws; z3 decides range, monotonicity, limit and inverse claims",
         text=("bounded model checking by symbolic execution over all limits vmin < vmax, data values, stretch parameters: for each "
               "of 4 interval kinds x 4 stretch kinds the normalised values lie in [0,1], are monotone, map the limits to 0 and 1; "
-              "each of the 6 stretch/inverse pairs composes to the identity on [0,1]; every query comes back unsat"),
+              "each of the 6 stretch/inverse pairs composes to the identity on [0,1]; the real display functions _show_2d_array (12 configuration forms) "
+              "and _show_2d_combined (5) on symbolic pixels: range, monotone, configured limits shown as 0 and 1; integer dtypes with manual and "
+              "centred intervals and NaN/inf by symbolic selector through the real code (CrossHair); every query comes back unsat"),
         note=("real arithmetic; log/exp/sinh/asinh/x^p are uninterpreted with only their order/inverse laws (sound for unsat, "
               "sat answers are filtered by replay on real NumPy); np.quantile is a contract stub; NaN/inf handling is "
               "exercised concretely; degenerate intervals are outside"),
